@@ -1,17 +1,18 @@
 #!/bin/sh
 # matrix_par.sh OUTFILE DIR... : cross matrix of every claimed quick check over the patches, N jobs in parallel,
 # each on its own scratch worktree of /repo HEAD (created under /tmp, removed at the end). /repo is not touched.
+# Env: JOBS (8), PROPS (all claimed), VERIF (/verif; use an rsync snapshot while rules are being edited), MP (prefix of the scratch names, to run two matrices at once).
 OUT="$1"; shift
 N=${JOBS:-8}
 HEAD=$(git -C /repo rev-parse HEAD)
 i=0
-rm -f /tmp/mp_out_*.txt /tmp/mp_list_*.txt
-for d in "$@"; do echo "$d"; done > /tmp/mp_all.txt
+rm -f /tmp/${MP:-mp}_out_*.txt /tmp/${MP:-mp}_list_*.txt
+for d in "$@"; do echo "$d"; done > /tmp/${MP:-mp}_all.txt
 for j in $(seq 1 $N); do
-  W=/tmp/mp_wt_$j
+  W=/tmp/${MP:-mp}_wt_$j
   git -C /repo worktree remove --force $W 2>/dev/null
   git -C /repo worktree add -q --detach $W $HEAD || exit 2
-  awk -v n=$N -v j=$j 'NR % n == j % n' /tmp/mp_all.txt > /tmp/mp_list_$j.txt
+  awk -v n=$N -v j=$j 'NR % n == j % n' /tmp/${MP:-mp}_all.txt > /tmp/${MP:-mp}_list_$j.txt
   ( PROPS="${PROPS:-C01 C02 C03 C04 C05 C06 C07 C08 C09 C10 C11 C12 C13 C14 C15 C16 C17 C19}"
     while read d; do
       name=$(basename $d)
@@ -20,15 +21,15 @@ for j in $(seq 1 $N); do
       git apply $d/patch.diff 2>/dev/null
       res=""
       for p in $PROPS; do
-        ${VERIF:-/verif}/check $p --repo $W --no-evidence > /tmp/mp_${j}_$p.out 2>&1; rc=$?
-        if [ $rc -eq 1 ]; then res="$res $p:VIOL($(grep -o 'rule C[0-9]*\.R[0-9]*' /tmp/mp_${j}_$p.out | sort -u | sed 's/rule //' | tr '\n' ',' ))"; fi
+        ${VERIF:-/verif}/check $p --repo $W --no-evidence > /tmp/${MP:-mp}_${j}_$p.out 2>&1; rc=$?
+        if [ $rc -eq 1 ]; then res="$res $p:VIOL($(grep -o 'rule C[0-9]*\.R[0-9]*' /tmp/${MP:-mp}_${j}_$p.out | sort -u | sed 's/rule //' | tr '\n' ',' ))"; fi
         if [ $rc -eq 2 ]; then res="$res $p:ERR"; fi
       done
       git checkout -q -- .; git clean -fdq
       echo "$name:$res"
-    done < /tmp/mp_list_$j.txt > /tmp/mp_out_$j.txt 2>&1 ) &
+    done < /tmp/${MP:-mp}_list_$j.txt > /tmp/${MP:-mp}_out_$j.txt 2>&1 ) &
 done
 wait
-cat /tmp/mp_out_*.txt | sort > "$OUT"
-for j in $(seq 1 $N); do git -C /repo worktree remove --force /tmp/mp_wt_$j 2>/dev/null; done
+cat /tmp/${MP:-mp}_out_*.txt | sort > "$OUT"
+for j in $(seq 1 $N); do git -C /repo worktree remove --force /tmp/${MP:-mp}_wt_$j 2>/dev/null; done
 echo "matrix written to $OUT"
